@@ -590,6 +590,15 @@ macro_rules! poly_family {
                     let (va, vb) = ($V::from_slice(&$a), $V::from_slice(&$b));
                     let ty = stringify!($V);
                     $o.emit(json!({"k": "poly", "op": "lerp", "f": $fm, "ty": ty, "a": wv(&$a), "b": wv(&$b), "t": w(tt), "got": wv(&va.lerp(vb, tt).to_array())}));
+                    // the cancelling configuration: a factor just below / above 1 and a target far smaller than the start, so that the
+                    // exact result is tiny against |a| and only a * (1 - t) computed at its own magnitude is accurate enough
+                    {
+                        let kk = 3 + $r.below(if is32 { 16 } else { 40 }) as i32;
+                        let t1: $S = 1.0 - (1.0 + ($r.below(1 << 20) as $S) / 1048576.0) * (2.0 as $S).powi(-kk) * (if $r.below(4) == 0 { -1.0 } else { 1.0 });
+                        let small: Vec<$S> = $b.iter().map(|x| *x * (2.0 as $S).powi(-kk - 2)).collect();
+                        let vs = $V::from_slice(&small);
+                        $o.emit(json!({"k": "poly", "op": "lerp", "f": $fm, "ty": ty, "sp": "cancelling", "a": wv(&$a), "b": wv(&small), "t": w(t1), "got": wv(&va.lerp(vs, t1).to_array())}));
+                    }
                     $o.emit(json!({"k": "poly", "op": "midpoint", "f": $fm, "ty": ty, "a": wv(&$a), "b": wv(&$b), "got": wv(&va.midpoint(vb).to_array())}));
                     $o.emit(json!({"k": "poly", "op": "distance_squared", "f": $fm, "ty": ty, "a": wv(&$a), "b": wv(&$b), "got": w(va.distance_squared(vb))}));
                     let nb = vb.normalize();
